@@ -54,3 +54,25 @@ def assume(cond):
     if not cond:
         from crosshair.util import IgnoreAttempt
         raise IgnoreAttempt("assumption not met")
+
+
+class untraced:
+    """Run a block of purely CONCRETE set-up code (fixture building) at native
+    speed: CrossHair's tracer is suspended inside the block.  Must not be used
+    around code that touches symbolic values."""
+
+    def __enter__(self):
+        self._ctx = None
+        try:
+            from crosshair.tracers import NoTracing, is_tracing
+            if is_tracing():
+                self._ctx = NoTracing()
+                self._ctx.__enter__()
+        except ImportError:
+            pass
+        return self
+
+    def __exit__(self, *a):
+        if self._ctx is not None:
+            self._ctx.__exit__(*a)
+        return False
